@@ -1,5 +1,347 @@
-"""Thorough tier: checker self-validation on scratch variants (filled in below)."""
+"""Thorough tier: checker self-validation.
+
+The *checker* (never the repository) is run on in-memory variants of the
+functions a property's rules consulted:
+
+* breaking variants - one AST-computed edit each (comparison flipped, guard
+  negated, statement deleted, +/- swapped, constant changed, tuple components
+  swapped, URGENT<->NORMAL ...).  Expected: the check reports a violation (or
+  an analysis error).  Survivors are listed (many are equivalent mutants, e.g.
+  in a debug branch); they never turn into a VIOLATION of /repo.
+* refactoring twins - behaviour-preserving edits (operands swapped, a < b as
+  b > a / not a >= b, x += e as x = x + e, if/else mirrored, a temporary for a
+  guard, a local renamed, whole module re-printed).  Expected: silence.  A twin
+  that raises an alarm is a checker bug and is reported as SELFTEST-GAP.
+
+Variants exist only in memory (Repo overlay); nothing is written to /repo.
+"""
+from __future__ import annotations
+
+import ast
+import copy
+import importlib
+import os
+import random
+from concurrent.futures import ProcessPoolExecutor
+from typing import Dict, List, Tuple
+
+from .core import Ctx, REPO_ROOT, load_known
+from .model import AnalysisError
+
+SWAP_CMP = {ast.Lt: ast.LtE, ast.LtE: ast.Lt, ast.Gt: ast.GtE, ast.GtE: ast.Gt, ast.Eq: ast.NotEq, ast.NotEq: ast.Eq,
+            ast.Is: ast.IsNot, ast.IsNot: ast.Is, ast.In: ast.NotIn, ast.NotIn: ast.In}
+MIRROR = {ast.Lt: ast.Gt, ast.Gt: ast.Lt, ast.LtE: ast.GtE, ast.GtE: ast.LtE}
+NEGATED = {ast.Lt: ast.GtE, ast.GtE: ast.Lt, ast.Gt: ast.LtE, ast.LtE: ast.Gt}
 
 
-def run_for(prop: str) -> int:
-    return 0
+def _find_function(tree: ast.Module, qualname: str):
+    parts = qualname.split('.')
+    body = tree.body
+    node = None
+    for i, p in enumerate(parts):
+        found = None
+        stack = list(body)
+        while stack:
+            s = stack.pop(0)
+            if isinstance(s, (ast.ClassDef, ast.FunctionDef)) and s.name == p:
+                found = s
+                break
+            if isinstance(s, ast.If):
+                stack = list(s.body) + list(s.orelse) + stack
+        if found is None:
+            return None
+        node = found
+        body = found.body
+    return node if isinstance(node, ast.FunctionDef) else None
+
+
+def _in_noise(parents, n) -> bool:
+    """inside a raise message, a print/dprint call, an f-string or a debug branch"""
+    p = n
+    while p is not None:
+        if isinstance(p, (ast.Raise, ast.JoinedStr)):
+            return True
+        if isinstance(p, ast.Call):
+            f = p.func
+            nm = f.id if isinstance(f, ast.Name) else f.attr if isinstance(f, ast.Attribute) else ''
+            if nm in ('print', 'dprint', 'format'):
+                return True
+        if isinstance(p, ast.If) and ast.unparse(p.test) in ('self.debug',):
+            return True
+        p = parents.get(p)
+    return False
+
+
+def _sites(fn: ast.FunctionDef):
+    parents = {}
+    order = []
+    for n in ast.walk(fn):
+        for c in ast.iter_child_nodes(n):
+            parents[c] = n
+    # deterministic pre-order
+    def pre(x):
+        order.append(x)
+        for c in ast.iter_child_nodes(x):
+            pre(c)
+    pre(fn)
+    return order, parents
+
+
+def _is_docstring(stmt) -> bool:
+    return isinstance(stmt, ast.Expr) and isinstance(stmt.value, ast.Constant) and isinstance(stmt.value.value, str)
+
+
+def gen_variants(src: str, qualname: str, kinds=('break', 'twin')) -> List[Tuple[str, str, str]]:
+    """-> [(kind, description, new_source)]"""
+    out = []
+    base = ast.parse(src)
+    fn0 = _find_function(base, qualname)
+    if fn0 is None:
+        return out
+    order0, parents0 = _sites(fn0)
+
+    def variant(idx, edit, kind, desc):
+        tree = ast.parse(src)
+        fn = _find_function(tree, qualname)
+        order, parents = _sites(fn)
+        n = order[idx]
+        r = edit(n, parents, fn)
+        if r is False:
+            return
+        ast.fix_missing_locations(tree)
+        try:
+            new = ast.unparse(tree)
+            compile(new, '<variant>', 'exec')
+        except Exception:
+            return
+        out.append((kind, '%s @%s line %d: %s' % (qualname, type(order0[idx]).__name__, getattr(order0[idx], 'lineno', 0), desc), new))
+
+    annotated = set()
+    for n in order0:
+        for fld in ('annotation', 'returns'):
+            a = getattr(n, fld, None)
+            if isinstance(a, ast.AST):
+                for x in ast.walk(a):
+                    annotated.add(id(x))
+    for i, n in enumerate(order0):
+        if id(n) in annotated:
+            continue
+        noise = _in_noise(parents0, n)
+        # ----------------------------------------------------------- breaking variants
+        if 'break' in kinds and not noise:
+            if isinstance(n, ast.Compare) and len(n.ops) == 1 and type(n.ops[0]) in SWAP_CMP:
+                def e(m, P, F):
+                    m.ops = [SWAP_CMP[type(m.ops[0])]()]
+                variant(i, e, 'break', 'comparison %s -> %s' % (type(n.ops[0]).__name__, SWAP_CMP[type(n.ops[0])].__name__))
+            if isinstance(n, (ast.If, ast.While)) and not (isinstance(n.test, ast.Constant)):
+                def e(m, P, F):
+                    m.test = ast.UnaryOp(op=ast.Not(), operand=m.test)
+                variant(i, e, 'break', 'guard negated: %s' % ast.unparse(n.test)[:60])
+            if isinstance(n, ast.BoolOp):
+                def e(m, P, F):
+                    m.op = ast.Or() if isinstance(m.op, ast.And) else ast.And()
+                variant(i, e, 'break', 'and <-> or')
+            if isinstance(n, ast.BinOp) and isinstance(n.op, (ast.Add, ast.Sub, ast.Mult, ast.Div)):
+                def e(m, P, F):
+                    m.op = {ast.Add: ast.Sub, ast.Sub: ast.Add, ast.Mult: ast.Div, ast.Div: ast.Mult}[type(m.op)]()
+                variant(i, e, 'break', 'operator %s swapped' % type(n.op).__name__)
+            if isinstance(n, ast.AugAssign) and isinstance(n.op, (ast.Add, ast.Sub)):
+                def e(m, P, F):
+                    m.op = ast.Sub() if isinstance(m.op, ast.Add) else ast.Add()
+                variant(i, e, 'break', 'augmented %s swapped' % type(n.op).__name__)
+            if isinstance(n, ast.Constant) and isinstance(n.value, (int, float)) and not isinstance(n.value, bool):
+                par = parents0.get(n)
+                if not (isinstance(par, ast.Expr)):
+                    def e(m, P, F):
+                        m.value = m.value + 1
+                    variant(i, e, 'break', 'constant %r -> %r' % (n.value, n.value + 1))
+            if isinstance(n, ast.Constant) and isinstance(n.value, bool):
+                def e(m, P, F):
+                    m.value = not m.value
+                variant(i, e, 'break', 'constant %r flipped' % n.value)
+            if isinstance(n, ast.Name) and n.id in ('URGENT', 'NORMAL') and isinstance(n.ctx, ast.Load):
+                def e(m, P, F):
+                    m.id = 'NORMAL' if m.id == 'URGENT' else 'URGENT'
+                variant(i, e, 'break', '%s swapped' % n.id)
+            if isinstance(n, ast.Tuple) and isinstance(n.ctx, ast.Load) and len(n.elts) >= 2 and \
+                    ast.unparse(n.elts[0]) != ast.unparse(n.elts[1]):
+                def e(m, P, F):
+                    m.elts[0], m.elts[1] = m.elts[1], m.elts[0]
+                variant(i, e, 'break', 'first two tuple components swapped')
+            if isinstance(n, ast.Call) and isinstance(n.func, ast.Attribute) and n.func.attr == 'pop' and len(n.args) == 1 \
+                    and isinstance(n.args[0], ast.Constant) and n.args[0].value == 0:
+                def e(m, P, F):
+                    m.args = []
+                variant(i, e, 'break', 'pop(0) -> pop()')
+            if isinstance(n, (ast.Expr, ast.Assign, ast.AugAssign, ast.Break, ast.Continue, ast.Delete)) and not _is_docstring(n):
+                if isinstance(n, ast.Expr) and isinstance(n.value, (ast.Yield, ast.YieldFrom)) is False or not isinstance(n, ast.Expr):
+                    def e(m, P, F):
+                        par = P.get(m)
+                        for fld in ('body', 'orelse', 'finalbody'):
+                            blk = getattr(par, fld, None)
+                            if isinstance(blk, list) and m in blk:
+                                blk[blk.index(m)] = ast.Pass()
+                                return
+                        return False
+                    variant(i, e, 'break', 'statement deleted: %s' % ast.unparse(n).split('\n')[0][:70])
+            if isinstance(n, ast.Expr) and isinstance(n.value, ast.Call) and isinstance(n.value.func, ast.Attribute) \
+                    and n.value.func.attr == 'put':
+                def e(m, P, F):
+                    par = P.get(m)
+                    for fld in ('body', 'orelse', 'finalbody'):
+                        blk = getattr(par, fld, None)
+                        if isinstance(blk, list) and m in blk:
+                            blk.insert(blk.index(m), copy.deepcopy(m))
+                            return
+                    return False
+                variant(i, e, 'break', 'statement duplicated: %s' % ast.unparse(n)[:70])
+        # ----------------------------------------------------------- refactoring twins
+        if 'twin' in kinds:
+            if isinstance(n, ast.Compare) and len(n.ops) == 1 and type(n.ops[0]) in MIRROR:
+                def e(m, P, F):
+                    m.left, m.comparators = m.comparators[0], [m.left]
+                    m.ops = [MIRROR[type(m.ops[0])]()]
+                variant(i, e, 'twin', 'a %s b mirrored' % type(n.ops[0]).__name__)
+
+                def e2(m, P, F):
+                    par = P.get(m)
+                    neg = ast.UnaryOp(op=ast.Not(), operand=ast.Compare(left=m.left, ops=[NEGATED[type(m.ops[0])]()],
+                                                                         comparators=m.comparators))
+                    for fld, val in ast.iter_fields(par):
+                        if val is m:
+                            setattr(par, fld, neg)
+                            return
+                        if isinstance(val, list) and m in val:
+                            val[val.index(m)] = neg
+                            return
+                    return False
+                variant(i, e2, 'twin', 'a %s b as not (a %s b)' % (type(n.ops[0]).__name__, NEGATED[type(n.ops[0])].__name__))
+            if isinstance(n, ast.BinOp) and isinstance(n.op, (ast.Add, ast.Mult)) and not noise:
+                strish = lambda x: isinstance(x, (ast.JoinedStr, ast.List, ast.Tuple)) or (isinstance(x, ast.Constant) and isinstance(x.value, str))
+                if not strish(n.left) and not strish(n.right) and not (isinstance(n.left, ast.BinOp) and isinstance(n.left.op, ast.Mod)):
+                    def e(m, P, F):
+                        m.left, m.right = m.right, m.left
+                    variant(i, e, 'twin', 'operands of %s swapped' % type(n.op).__name__)
+            if isinstance(n, ast.AugAssign) and isinstance(n.target, (ast.Name, ast.Attribute)):
+                def e(m, P, F):
+                    par = P.get(m)
+                    load = copy.deepcopy(m.target)
+                    load.ctx = ast.Load()
+                    new = ast.Assign(targets=[m.target], value=ast.BinOp(left=load, op=m.op, right=m.value))
+                    for fld in ('body', 'orelse', 'finalbody'):
+                        blk = getattr(par, fld, None)
+                        if isinstance(blk, list) and m in blk:
+                            blk[blk.index(m)] = new
+                            return
+                    return False
+                variant(i, e, 'twin', 'x op= e as x = x op e')
+            if isinstance(n, ast.If) and n.orelse:
+                def e(m, P, F):
+                    m.test = ast.UnaryOp(op=ast.Not(), operand=m.test)
+                    m.body, m.orelse = m.orelse, m.body
+                variant(i, e, 'twin', 'if/else mirrored')
+            if isinstance(n, ast.If) and not any(isinstance(x, (ast.Yield, ast.YieldFrom, ast.NamedExpr)) for x in ast.walk(n.test)):
+                def e(m, P, F):
+                    par = P.get(m)
+                    for fld in ('body', 'orelse', 'finalbody'):
+                        blk = getattr(par, fld, None)
+                        if isinstance(blk, list) and m in blk:
+                            tmp = ast.Assign(targets=[ast.Name(id='_guard_tmp', ctx=ast.Store())], value=m.test)
+                            m.test = ast.Name(id='_guard_tmp', ctx=ast.Load())
+                            blk.insert(blk.index(m), tmp)
+                            return
+                    return False
+                # an `elif` cannot take a statement in front of it
+                par = parents0.get(n)
+                is_elif = isinstance(par, ast.If) and par.orelse == [n] and n.col_offset == par.col_offset
+                if not is_elif:
+                    variant(i, e, 'twin', 'temporary for the guard')
+    if 'twin' in kinds:
+        # rename one local
+        locs = []
+        params = {a.arg for a in fn0.args.args + fn0.args.kwonlyargs}
+        for n in order0:
+            if isinstance(n, ast.Name) and isinstance(n.ctx, ast.Store) and n.id not in params and n.id not in locs and n.id != '_':
+                locs.append(n.id)
+        for nm in locs[:3]:
+            def e(m, P, F, nm=nm):
+                for x in ast.walk(F):
+                    if isinstance(x, ast.Name) and x.id == nm:
+                        x.id = nm + '_renamed'
+                    if isinstance(x, ast.ExceptHandler) and x.name == nm:
+                        x.name = nm + '_renamed'
+            variant(0, e, 'twin', 'local %s renamed' % nm)
+
+        def e(m, P, F):
+            F.body.insert(1 if _is_docstring(F.body[0]) else 0, ast.Pass())
+        variant(0, e, 'twin', 'pass inserted')
+    return out
+
+
+def _run_one(args):
+    prop, rel, kind, desc, new_src = args
+    try:
+        mod = importlib.import_module('onlsa.rules.%s' % prop.lower())
+        ctx = Ctx(prop, 'thorough', overlay={rel: new_src})
+        mod.check(ctx)
+        known = load_known()
+        new = [f for f in ctx.findings if f.ident() not in known]
+        return (kind, desc, rel, 'violation' if new else 'silent', (new[0].rule + ': ' + new[0].message[:160]) if new else '')
+    except AnalysisError as e:
+        return (kind, desc, rel, 'analysis-error', str(e)[:160])
+    except Exception as e:  # pragma: no cover
+        return (kind, desc, rel, 'internal-error', '%s: %s' % (type(e).__name__, str(e)[:160]))
+
+
+def run_for(prop: str, ctx: Ctx, max_variants: int = 1200) -> dict:
+    """variants of every function the property's rules consulted on the clean tree"""
+    seed = int(os.environ.get('VERIF_SEED', '0') or 0)
+    targets: Dict[str, List[str]] = {}
+    for f in ctx.primary:
+        if f.module.relpath.startswith('onl/'):
+            targets.setdefault(f.module.relpath, [])
+            if f.qualname not in targets[f.module.relpath]:
+                targets[f.module.relpath].append(f.qualname)
+    jobs = []
+    for rel, quals in sorted(targets.items()):
+        src = ctx.repo.modules[[m for m in ctx.repo.modules if ctx.repo.modules[m].relpath == rel][0]].source
+        # identity twin: the module re-printed by ast.unparse
+        jobs.append((prop, rel, 'twin', '%s: module re-printed (identity)' % rel, ast.unparse(ast.parse(src))))
+        for q in sorted(quals):
+            for kind, desc, new in gen_variants(src, q):
+                jobs.append((prop, rel, kind, desc, new))
+    if len(jobs) > max_variants:
+        rnd = random.Random(seed)
+        twins = [j for j in jobs if j[2] == 'twin']
+        breaks = [j for j in jobs if j[2] == 'break']
+        rnd.shuffle(twins)
+        rnd.shuffle(breaks)
+        jobs = twins[:max_variants // 3] + breaks[:max_variants - min(len(twins), max_variants // 3)]
+    results = []
+    with ProcessPoolExecutor(max_workers=min(16, os.cpu_count() or 4)) as ex:
+        for r in ex.map(_run_one, jobs, chunksize=4):
+            results.append(r)
+    breaks = [r for r in results if r[0] == 'break']
+    twins = [r for r in results if r[0] == 'twin']
+    killed = [r for r in breaks if r[3] in ('violation', 'analysis-error')]
+    survivors = [r for r in breaks if r[3] == 'silent']
+    twin_alarms = [r for r in twins if r[3] != 'silent']
+    for r in twin_alarms:
+        print('SELFTEST-GAP twin raised %s: %s [%s] %s' % (r[3], r[1], r[2], r[4]))
+    for r in survivors[:400]:
+        print('SELFTEST-NOTE surviving variant (possibly equivalent): %s [%s]' % (r[1], r[2]))
+    for r in results:
+        if r[3] == 'internal-error':
+            print('SELFTEST-GAP internal error on variant: %s [%s] %s' % (r[1], r[2], r[4]))
+    stats = {
+        'variants': len(results), 'breaking': len(breaks), 'killed': len(killed),
+        'killed_by_violation': len([r for r in breaks if r[3] == 'violation']),
+        'killed_by_analysis_error': len([r for r in breaks if r[3] == 'analysis-error']),
+        'survivors': len(survivors), 'twins': len(twins), 'twins_silent': len(twins) - len(twin_alarms),
+        'twin_alarms': [r[1] for r in twin_alarms][:50],
+        'survivor_sample': [r[1] for r in survivors][:60],
+        'functions_mutated': sum(len(v) for v in targets.values()),
+    }
+    print('selftest %s: %d breaking variants, %d flagged (%d by violation), %d survivors; %d twins, %d silent' % (
+        prop, len(breaks), len(killed), stats['killed_by_violation'], len(survivors), len(twins), stats['twins_silent']))
+    return stats
